@@ -206,6 +206,33 @@ func c15(ctx *Ctx) (*Outcome, error) {
 		off.Pair = &sem.Case{Root: root, Sig: off.Sig, Args: []string{"--min-sized-ints"}}
 		cases = append(cases, off)
 	}
+	// integer positions whose bound lies beyond the 64-bit range: whatever type is chosen, it is an integer type - a
+	// non-integral number stays rejected with and without the flag (in-range integers are left out: recorded finding
+	// int64-bound-overflow speaks about the bound check itself)
+	for i := 0; i < 4; i++ {
+		mk := func() *sg.Schema {
+			switch i % 4 {
+			case 0:
+				return &sg.Schema{Types: []string{"integer"}, Min: sg.Fp(-1e20)}
+			case 1:
+				return &sg.Schema{Types: []string{"integer"}, ExMin: float64(-1e19)}
+			case 2:
+				return &sg.Schema{Types: []string{"integer", "null"}, Min: sg.Fp(-1e20)}
+			}
+			return &sg.Schema{Types: []string{"integer"}, Min: sg.Fp(-1e300)}
+		}
+		def := mk()
+		root := &sg.Schema{Types: []string{"object"}, Defs: []sg.Prop{{Name: "Delta", S: def}}, Props: []sg.Prop{{Name: "offset", S: mk()}, {Name: "viaDef", S: &sg.Schema{Ref: "#/$defs/Delta", Target: def}},
+			{Name: "deltas", S: &sg.Schema{Types: []string{"array"}, Items: mk()}}}}
+		var docs []docgen.Doc
+		for _, d := range []string{`{"offset":1.5}`, `{"offset":-0.25}`, `{"viaDef":2.5}`, `{"deltas":[1,2.25]}`, `{"offset":"x"}`, `{"deltas":[true]}`, `{"offset":1e-3}`} {
+			v, _ := jsonx.Parse([]byte(d))
+			docs = append(docs, docgen.Doc{V: v, Class: "bound", Label: "non-integral-at-huge-bound"})
+		}
+		off := &sem.Case{Root: root, Sig: fmt.Sprintf("minsized-huge-bound/%d", i), NoAuto: true, Docs: docs}
+		off.Pair = &sem.Case{Root: root, Sig: off.Sig, Args: []string{"--min-sized-ints"}}
+		cases = append(cases, off)
+	}
 	// nullable named definitions (recorded finding named-nullable-scalar-no-rules shows on the flag-off side)
 	for i := 0; i < 4; i++ {
 		off := nullableDefCase(i)
